@@ -261,6 +261,30 @@ def run(ctx):
             ctx.evaluations += 1
             if not ok:
                 ctx.fail_input(w["kind"], w["case"], "%s [%s: %s]" % (d, k["id"], k["what"]), classify)
+    # ---- split sites: two reference atoms of one species closer than twice the tolerance share one nearby atom of the structure, and another atom of
+    #      that species is beyond the tolerance of EVERY reference site: no assignment within tolerance exists, the call must fail loudly
+    from ase import Atoms as _Atoms
+    for t in range(20 if quick else 300):
+        tol = rng.choice([0.3, 0.5, 1.0])
+        sp = rng.choice(["C", "H", "Si"])
+        base = np.array([rng.uniform(1, 4) for _ in range(3)])
+        sep = np.array([rng.uniform(0.3, 0.9) * tol, 0, 0])
+        ref_pos = [base, base + sep, base + np.array([0, 5.0, 0])][:rng.choice([2, 3])]
+        far = base + np.array([0, 0, tol * rng.uniform(2.5, 5.0) + 1.0])
+        s_pos = [base + 0.5 * sep, far] + ([ref_pos[2] + 0.01] if len(ref_pos) == 3 else [])
+        order = list(range(len(s_pos)))
+        rng.shuffle(order)
+        cell = np.eye(3) * 14.0
+        ref = _Atoms([sp] * len(ref_pos), positions=np.array(ref_pos), cell=cell, pbc=True)
+        st = _Atoms([sp] * len(s_pos), positions=np.array([s_pos[i] for i in order]), cell=cell, pbc=True)
+        mic = rng.random() < 0.5
+        out, cols, err = run_remap(ref, st, mic, tol)
+        ctx.evaluations += 1
+        ctx.seen(("remap-split", len(ref_pos), tol, err is None))
+        if not (err and err.startswith("ValueError")):
+            ctx.fail_input("remap", dict(mode="split-site", tol=tol, mic=mic, syms=[sp] * len(ref_pos), ref_pos=np.array(ref_pos).tolist(), s_pos=st.positions.tolist(),
+                                         cell=cell.tolist()),
+                           "an atom %.2f A from every reference site (tolerance %.2f) was assigned instead of refused: %s" % (float(np.linalg.norm(far - base)), tol, err or out), classify)
     cases, meta = [], []
     contract_bad = 0
     NR = 250 if quick else 5000
